@@ -131,3 +131,89 @@ func ruleP5(c *an.Ctx) {
 	}
 	c.Note("P5: parameters that may hold the nil pipeline: %d; guarded field accesses through them: %d", len(mayNil), nDeref)
 }
+
+// P6: rendering a located error is proportional to the number of files.  A source location is
+// printed with the chain of `@include`s that brought its file in; a file included from several
+// places has several includers (SourceFile.IncludedFrom), and printing "every way this file was
+// included" by recursing into each includer visits a file once per PATH of the include graph.
+// With diamond includes the number of paths doubles per level: two kilobytes of source render a
+// compile error of hundreds of megabytes - "time or memory out of proportion to the input size".
+// Rule: a function of package syntax that writes (has a writer parameter) and calls itself inside
+// a loop over a SourceFile.IncludedFrom list must consult a set of files already expanded (a map
+// keyed by *SourceFile that it looks up and updates) - the standard memo that bounds a DAG walk
+// by its edges.  The include checker's own upward walk (checkIncludes) is exempt: it does not
+// write, and it runs while every ancestor still has a single includer.
+func ruleP6(c *an.Ctx) {
+	p := c.P
+	incFrom := p.Field(pkgSyntax, "SourceFile", "IncludedFrom")
+	if incFrom == nil {
+		c.Info("P6", "anchor(SourceFile.IncludedFrom)", 0, "field not found: not decided")
+		return
+	}
+	n := 0
+	for _, fn := range p.FuncsOf(pkgSyntax) {
+		if fn.Parent() != nil || fn.Blocks == nil {
+			continue
+		}
+		writes := false
+		for _, prm := range fn.Params {
+			ts := prm.Type().String()
+			if strings.Contains(ts, "stringWriter") || strings.Contains(ts, "io.Writer") || strings.Contains(ts, "strings.Builder") || strings.Contains(ts, "bytes.Buffer") {
+				writes = true
+			}
+		}
+		if !writes {
+			continue
+		}
+		// loops over IncludedFrom
+		loops := naturalLoops(fn)
+		for h, body := range loops {
+			overIncludes := false
+			for b := range body {
+				for _, in := range b.Instrs {
+					if ia, ok := in.(*ssa.IndexAddr); ok && an.LoadsField(ia.X, incFrom) {
+						overIncludes = true
+					}
+				}
+			}
+			if !overIncludes {
+				continue
+			}
+			recurses := false
+			for b := range body {
+				for _, in := range b.Instrs {
+					if cl, ok := in.(*ssa.Call); ok && cl.Call.StaticCallee() == fn {
+						recurses = true
+					}
+				}
+			}
+			if !recurses {
+				continue
+			}
+			n++
+			// a set of files: looked up and updated in this function
+			looked, updated := false, false
+			an.Instrs(fn, func(in ssa.Instruction) {
+				isFileSet := func(v ssa.Value) bool {
+					mt, ok := v.Type().Underlying().(*types.Map)
+					return ok && strings.Contains(mt.Key().String(), "SourceFile")
+				}
+				switch x := in.(type) {
+				case *ssa.Lookup:
+					if isFileSet(x.X) {
+						looked = true
+					}
+				case *ssa.MapUpdate:
+					if isFileSet(x.Map) {
+						updated = true
+					}
+				}
+			})
+			c.Check("P6", "include-paths-rendered-once-per-file@"+an.FnName(fn), h.Instrs[0].Pos(), looked && updated,
+				"this writer calls itself for every includer of a file without remembering which files it has already expanded: a file reachable through k include paths is rendered k times, and k doubles with every level of diamond includes (a 2 KB program can produce an error message of hundreds of megabytes)")
+		}
+	}
+	if n == 0 {
+		c.Pass("P6", "no-fan-out-recursion-over-includers-in-writers", 0, "no writer of package syntax recurses inside a loop over SourceFile.IncludedFrom")
+	}
+}
